@@ -8,6 +8,7 @@ import (
 	"go/constant"
 	"go/types"
 	"math"
+	"math/bits"
 	"path/filepath"
 	"sort"
 	"strconv"
@@ -119,6 +120,33 @@ func (ip *Interp) model2(fn *ssa.Function, name string, args []AV) (AV, bool) {
 			return TupleV{kInt(0), ip.errVal(err.Error())}, true
 		}
 		return TupleV{kInt(int64(v)), NilV{}}, true
+	// ---- math/bits
+	case "math/bits.OnesCount64":
+		return kInt(int64(bits.OnesCount64(avUint(args[0])))), true
+	case "math/bits.OnesCount32":
+		return kInt(int64(bits.OnesCount32(uint32(avUint(args[0]))))), true
+	case "math/bits.OnesCount":
+		return kInt(int64(bits.OnesCount(uint(avUint(args[0]))))), true
+	case "math/bits.TrailingZeros64":
+		return kInt(int64(bits.TrailingZeros64(avUint(args[0])))), true
+	case "math/bits.TrailingZeros32":
+		return kInt(int64(bits.TrailingZeros32(uint32(avUint(args[0]))))), true
+	case "math/bits.TrailingZeros":
+		return kInt(int64(bits.TrailingZeros(uint(avUint(args[0]))))), true
+	case "math/bits.LeadingZeros64":
+		return kInt(int64(bits.LeadingZeros64(avUint(args[0])))), true
+	case "math/bits.LeadingZeros32":
+		return kInt(int64(bits.LeadingZeros32(uint32(avUint(args[0]))))), true
+	case "math/bits.Len64":
+		return kInt(int64(bits.Len64(avUint(args[0])))), true
+	case "math/bits.Len32":
+		return kInt(int64(bits.Len32(uint32(avUint(args[0]))))), true
+	case "math/bits.Len":
+		return kInt(int64(bits.Len(uint(avUint(args[0]))))), true
+	case "math/bits.RotateLeft32":
+		return kUint(uint64(bits.RotateLeft32(uint32(avUint(args[0])), n(1)))), true
+	case "math/bits.RotateLeft64":
+		return kUint(bits.RotateLeft64(avUint(args[0]), n(1))), true
 	// ---- math
 	case "math.IsNaN":
 		return kBool(math.IsNaN(avFloat(args[0]))), true
@@ -394,6 +422,21 @@ func (ip *Interp) model2(fn *ssa.Function, name string, args []AV) (AV, bool) {
 			return kBool(true), true
 		}
 	}
+	if name == "(*sync.Once).Do" {
+		p, ok := args[0].(*Ptr)
+		if !ok {
+			ood("once receiver")
+		}
+		if ip.Atomics == nil {
+			ip.Atomics = map[string]AV{}
+		}
+		k := "once:" + atomKey(p)
+		if _, done := ip.Atomics[k]; !done {
+			ip.Atomics[k] = kInt(1)
+			ip.apply(nil, args[1], nil)
+		}
+		return TupleV{}, true
+	}
 	// ---- sync/atomic typed values: (*atomic.Int64).Load etc. on an addressable cell
 	if recv := fn.Signature.Recv(); recv != nil && strings.HasPrefix(name, "(*sync/atomic.") && len(args) > 0 {
 		p, ok := args[0].(*Ptr)
@@ -539,4 +582,9 @@ func (ip *Interp) modelStorage(fn *ssa.Function, name string, args []AV) (AV, bo
 	}
 	ood("flatten.Storage.%s", fn.Name())
 	return nil, false
+}
+
+// runtimeErr is the value recover() yields for a modelled run-time panic.
+func (ip *Interp) runtimeErr(msg string) AV {
+	return &IfaceV{T: types.Universe.Lookup("error").Type(), V: &Sym{Name: "error:runtime error: " + msg}}
 }
